@@ -223,7 +223,7 @@ def check_structure(res, b: programs.Built, m, where, program):
     return not probs
 
 
-def check_topological(res, b, m, program, where):
+def check_topological(res, b, m, program, where, target=None):
     """Assign all inputs with auto-update off, update once, look at evaluation order."""
     m.auto_update = False
     for i, it in enumerate(b.items):
@@ -232,7 +232,10 @@ def check_topological(res, b, m, program, where):
         elif it["kind"] == "var":
             b.objs[i].value = b.val(1)
     b.order.clear()
-    m.update()
+    if target is None:
+        m.update()
+    else:
+        m.update(target)
     pos = {}
     for k, tag in enumerate(b.order):
         pos.setdefault(tag, k)
@@ -257,7 +260,8 @@ def check_topological(res, b, m, program, where):
     for i in caching:
         tag = ("d", i) if b.items[i]["kind"] in ("dist", "tdist", "bdist") else ("c", i)
         if tag not in pos:
-            res.violation("structure", "topological", {"program": program, "where": where}, f"item {i} not evaluated by update() after assigning all inputs ({where})")
+            if target is None:
+                res.violation("structure", "topological", {"program": program, "where": where}, f"item {i} not evaluated by update() after assigning all inputs ({where})")
             continue
         for j in first_cached_ancestors(i, set()):
             tj = ("d", j) if b.items[j]["kind"] in ("dist", "tdist", "bdist") else ("c", j)
@@ -436,6 +440,12 @@ class RT:
                     twin.model.update()
                 if self.seed_set:
                     self.rebuilt_after_seed = True
+            missing = sorted(set(st_before) - set(new.nodes))
+            extra = sorted(set(new.nodes) - set(st_before))
+            if missing or extra:
+                problems.append((f"{kind}-changes-node-set", f"{kind} lost nodes {missing[:4]} / gained nodes {extra[:4]}"))
+                self.dead = True
+                return problems
             b.rebind(new)
             if not check_structure(res, b, new, f"after {hist}", self.program):
                 pass
@@ -529,6 +539,9 @@ def build_variants(res, program):
     ref_names = sorted(ref.model.nodes)
     ref_state = model_state(ref.model)
     check_topological(res, ref, ref.model, program, "fresh build")
+    # the same for a TARGETED update of every node: ancestors must be evaluated before their dependents
+    for tname in [n for n in ref.model.nodes if not n.startswith("_model") or n == "_model_log_prob"]:
+        check_topological(res, ref, ref.model, program, f"targeted update({tname!r})", target=tname)
     named = all(it.get("named", True) for it in program["items"])
     for variant in ("sinks", "reversed", "copy", "twice", "grow", "copy_twice", "grow_copy_twice"):
         b = programs.Built(program, build=False)
